@@ -249,11 +249,17 @@ impl<
                 m.iter()
                     // Sanity check. Verify that the store agrees that this key is expired.
                     .filter_map(|(k, v)| {
+                        #[cfg(transparencies_stretto_verif)]
+                        crate::verif::note("tick:key", &[*k]);
+                        #[cfg(transparencies_stretto_verif)]
+                        crate::verif::yield_point("proc:tick:key");
                         self.expiration(k)
                             .and_then(|t| {
                                 if !t.is_zero() && t.is_expired() {
                                     let cost = policy.cost(k);
                                     policy.remove(k);
+                                    #[cfg(transparencies_stretto_verif)]
+                                    crate::verif::yield_point("proc:tick:after_policy");
                                     self.try_remove(k, *v)
                                         .map(|maybe_sitem| {
                                             maybe_sitem.map(|sitem| CrateItem {
@@ -286,11 +292,17 @@ impl<
         let mut removed_items = Vec::new();
         if let Some(items) = items {
             for (k, v) in items.iter() {
+                #[cfg(transparencies_stretto_verif)]
+                crate::verif::note("tick:key", &[*k]);
+                #[cfg(transparencies_stretto_verif)]
+                crate::verif::yield_point("proc:tick:key");
                 let expiration = self.expiration(k);
                 if let Some(t) = expiration {
                     if !t.is_zero() && t.is_expired() {
                         let cost = policy.cost(k);
                         policy.remove(k);
+                        #[cfg(transparencies_stretto_verif)]
+                        crate::verif::yield_point("proc:tick:after_policy");
                         let removed_item = self.try_remove(k, *v)?;
                         if let Some(sitem) = removed_item {
                             removed_items.push(CrateItem {
@@ -321,6 +333,31 @@ impl<
 
     pub fn item_size(&self) -> usize {
         self.store_item_size
+    }
+}
+
+#[cfg(transparencies_stretto_verif)]
+impl<
+        V: Send + Sync + Clone + 'static,
+        U: UpdateValidator<Value = V>,
+        SS: BuildHasher + Clone + 'static,
+        ES: BuildHasher + Clone + 'static,
+    > ShardedMap<V, U, SS, ES>
+{
+    pub(crate) fn verif_entries(&self) -> Vec<(u64, u64, V, Time)> {
+        let mut out = Vec::new();
+        for shard in self.shards.iter() {
+            let data = shard.read();
+            for (k, item) in data.iter() {
+                debug_assert_eq!(*k, item.key);
+                out.push((*k, item.conflict, item.value.get().clone(), item.expiration));
+            }
+        }
+        out
+    }
+
+    pub(crate) fn verif_buckets(&self) -> crate::verif::Buckets {
+        self.em.verif_buckets()
     }
 }
 
